@@ -136,6 +136,13 @@ def model_events(actions):
         elif kind == "close":
             evs.append([SCLOSE, 0, ""])
             evs += [[LOGOUT, j, ""] for j in range(n)]
+        elif kind == "connect_close":
+            # a connection accepted right before Server.close(): its dispatcher has not taken its first step,
+            # is not registered yet and is therefore not cancelled -- the session starts after close()
+            evs.append([SCLOSE, 0, ""])
+            evs += [[LOGOUT, j, ""] for j in range(n)]
+            evs += [[CONNECT, 0, ""], [GREETING, n, ""], [LOGOUT, n, ""]]
+            n += 1
         else:
             raise ValueError(a)
         bounds.append(len(evs) - 1)
@@ -320,6 +327,12 @@ def run_impl(cfg, actions, segment=False):
                 await server.close()
                 closed[0] = True
                 await net.settle()
+            elif kind == "connect_close":
+                raw = await Raw.connect(net, PORT)  # returns before the dispatcher task has run
+                raws.append(raw)
+                await server.close()
+                closed[0] = True
+                codes = final_codes(await raw.drain_replies())
             snapshot(codes, bad)
         # quiescence: everybody leaves, the server closes, every counter must be full again
         for r in raws:
@@ -407,7 +420,7 @@ def check_history(ctx, cfg, actions, msnaps, bounds, segment, stream):
     nsess = 0
     prev = -1
     for k, a in enumerate(actions):
-        if a[0] == "connect":
+        if a[0] in ("connect", "connect_close"):
             nsess += 1
         real = snaps[k]
         msrv, mucs, msess, merrs = model_view(msnaps[bounds[k]], nsess)
@@ -508,7 +521,7 @@ BASE_SCRIPTS = [
      ("cmds", 1, [("USER", "a"), ("PASS", "pw")]), ("connect",), ("cmds", 2, [("PASS", "pw")]), ("cmds", 2, [("USER", "a")])],
 ]
 
-ENDINGS = ["drop", "reset", "dropmid", "idle", "quit", "userboom", "passboom", "close"]
+ENDINGS = ["drop", "reset", "dropmid", "idle", "quit", "userboom", "passboom", "close", "connect_close"]
 
 
 def ending_action(kind, i):
@@ -518,8 +531,8 @@ def ending_action(kind, i):
         return ("cmds", i, [("USER", "boom")])
     if kind == "passboom":
         return ("cmds", i, [("PASS", "boom")])
-    if kind == "close":
-        return ("close",)
+    if kind in ("close", "connect_close"):
+        return (kind,)
     return (kind, i)
 
 
@@ -531,10 +544,12 @@ def crash_points():
         for k in range(1, len(script) + 1):
             n = sum(1 for a in script[:k] if a[0] == "connect")
             for kind in ENDINGS:
-                for i in range(n) if kind != "close" else [0]:
+                for i in range(n) if kind not in ("close", "connect_close") else [0]:
                     rest = script[k:]
-                    if kind == "close":  # no connection is accepted after close()
+                    if kind in ("close", "connect_close"):  # no connection is accepted after close()
                         rest = [a for a in rest if a[0] != "connect" and a[1] < n]
+                    if kind == "connect_close":
+                        rest = rest[:2] + [("cmds", n, [("USER", "a")]), ("cmds", n, [("PASS", "pw")])] + rest[2:] + [("drop", n)]
                     out.append(script[:k] + [ending_action(kind, i)] + rest)
     return out
 
@@ -569,7 +584,11 @@ def random_history(rng, max_sessions=3, length=14):
         elif r < 0.92:
             acts.append((rng.choice(["drop", "drop", "reset", "dropmid", "idle"]), i))
         elif not closed:
-            acts.append(("close",))
+            if rng.random() < 0.3 and n < max_sessions:
+                acts.append(("connect_close",))
+                n += 1
+            else:
+                acts.append(("close",))
             closed = True
     return acts
 
@@ -595,7 +614,8 @@ def correspondence(ctx, budget=None):
     fin = fin_from_gen()
     ctx.extra["rule"] = (
         "histories of actions {connect, USER a|b|zz|boom, PASS pw|bad|boom, NOOP, QUIT, pipelined bursts of those, drop (EOF), "
-        "reset (RST), drop in the middle of a command line, idle timeout (virtual time, other sessions refreshed), server.close()} "
+        "reset (RST), drop in the middle of a command line, idle timeout (virtual time, other sessions refreshed), server.close(), "
+        "server.close() racing with a just-accepted connection} "
         "over <= 3 sessions, run on the real Server on simnet and on the extracted model; streams: (a) bounded-exhaustive: every "
         "sequence up to depth d over <= 2 sessions for a set of limit configurations, (b) crash points: 5 base scripts cut after "
         "every action by every ending kind on every session, then continued, (c) random histories over 3 sessions incl. bursts and "
@@ -613,7 +633,8 @@ def correspondence(ctx, budget=None):
     cfgs = all_configs()
     # (a) bounded exhaustive
     depth = 4 if thorough else 3
-    ex_cfgs = [make_cfg(1, "ab", 1, 1), make_cfg(2, "ab", 1, None), make_cfg(1, "a_anon", 1, 1), make_cfg(None, "anon_a", 2, 1)]
+    ex_cfgs = [make_cfg(1, "ab", 1, 1), make_cfg(2, "ab", 1, None), make_cfg(1, "a_anon", 1, 1), make_cfg(None, "anon_a", 2, 1),
+               make_cfg(2, "ab", 2, 2), make_cfg(None, "ab", 1, 1), make_cfg(2, "a_anon", None, 1), make_cfg(2, "anon_a", 1, 2)]
     if thorough:
         ex_cfgs += [make_cfg(2, "ab", 2, 1), make_cfg(0, "ab", 1, 1), make_cfg(1, "ab", 0, 1)]
     seqs = exhaustive(2, depth, rich=False)
@@ -656,7 +677,7 @@ def correspondence(ctx, budget=None):
     xcheck = []
     for (stream, cfg, actions, seg), bounds, msnaps, case in zip(jobs, metas, mres, cases):
         for a in actions:
-            k = a[0] if a[0] != "cmds" else "cmd:" + "+".join(v for v, _ in a[2])
+            k = a[0] if a[0] != "cmds" else ("cmd:" + a[2][0][0] if len(a[2]) == 1 else "cmd:pipelined-burst")
             kinds[k] = kinds.get(k, 0) + 1
         check_history(ctx, cfg, actions, msnaps, bounds, seg, stream)
         if len(xcheck) < 40 and stream in ("crash-points", "random") and len(actions) < 9:
